@@ -207,7 +207,9 @@ theorem parse_pushText (l r : List Nat) (s : TSeq) (hl : IsBlanks l) (hr : IsBla
     Suf.app (a := l) ⟨[37, 112, 117, 115, 104, 40], rfl, rfl⟩
   have hlen := hsuf.len
   simp only [List.length_append] at hlen
-  have hw := walkS s (6 + l.length) r.length _ (4 * (pushText' l s r).length + 100) hs hsuf (by omega)
+  have hw : ∀ k, parseExpr (pushText' l s r).toArray (4 * (pushText' l s r).length + 100 + k)
+      (seqPair (6 + l.length) s r.length) = .ok s.expr :=
+    fun k => walkS s (6 + l.length) r.length _ (4 * (pushText' l s r).length + 100 + k) hs hsuf (by omega)
   unfold parseAsm
   rw [pest_push l r s hl hr hs]
   simp [parseAsm.go, rule_mk, Pest.EOI, Gen.R_builtin, parseBuiltin, kids_mk, Gen.R_import, Gen.R_include,
